@@ -58,6 +58,7 @@ pub fn build_from(base: OpeningHours, c: &Ctx) -> Result<AnyOh, String> {
             let country: Country = cc.parse().map_err(|_| format!("unknown country {cc}"))?;
             AnyOh::Z(base.with_context(Context::default().with_holidays(country.holidays()).with_locale(TzLocation::new(tz))), tz)
         }
+        Ctx::Custom(k) => AnyOh::N(base.with_context(Context::default().with_holidays(custom_holidays(*k)))),
         Ctx::TzCoords(z, lat, lon) => {
             let tz: Tz = z.parse().map_err(|_| format!("unknown zone {z}"))?;
             let co = coords(*lat, *lon).ok_or_else(|| "invalid coordinates".to_string())?;
@@ -70,6 +71,19 @@ pub fn build_from(base: OpeningHours, c: &Ctx) -> Result<AnyOh, String> {
             AnyOh::Z(base.with_context(ctx), tz)
         }
     })
+}
+
+/// caller-made holiday calendars: calendar k holds a handful of days around the instants the pools use
+pub fn custom_holidays(k: u32) -> opening_hours::ContextHolidays {
+    let mut cal = compact_calendar::CompactCalendar::default();
+    for (i, (y, m, d)) in [(2024, 1, 1), (2024, 3, 29), (2024, 3, 31), (2024, 6, 15), (2024, 6, 16), (2024, 10, 27), (2024, 12, 24), (2025, 2, 28), (2030, 7, 4), (2021, 4, 10)].iter().enumerate() {
+        if (k as usize + i) % 3 != 0 {
+            cal.insert(NaiveDate::from_ymd_opt(*y, *m, *d).unwrap());
+        }
+    }
+    // a few days that depend on k only, so that no two calendars are equal
+    cal.insert(NaiveDate::from_ymd_opt(2024, 7, 1).unwrap() + chrono::TimeDelta::days((k % 20_000) as i64));
+    opening_hours::ContextHolidays::new(Arc::new(cal), Arc::default())
 }
 
 impl AnyOh {
@@ -192,6 +206,42 @@ fn eval_inner(op: &Op, pre: Option<(&Shared, &[(String, Ctx)])>, chans: Option<&
             }
             Err(m) => m,
         },
+        Op::Churn { kind, seed, n, t } => {
+            let mut kept: Vec<(String, AnyOh)> = Vec::new();
+            let mut f = simcore::Fp::default();
+            for i in 0..*n {
+                let (e, c) = match kind {
+                    // distinct comments
+                    0 => (format!("Mo-Su 10:00-{}:00 \"c{}-{}\"", 11 + i % 8, seed, i), Ctx::Default),
+                    // distinct expressions
+                    1 => (format!("Mo-Su {:02}:{:02}-{:02}:{:02}; Su[{}] off", (i / 60) % 12, i % 60, 12 + (i / 60) % 11, (i * 7) % 60, 1 + (seed + i) % 4), Ctx::Default),
+                    // distinct caller-made calendars (most of them dropped at once)
+                    _ => ("Mo-Su 09:00-18:00; PH off".to_string(), Ctx::Custom(1000 + seed * 1000 + i)),
+                };
+                match build(&e, &c) {
+                    Ok(oh) => {
+                        f.str(&oh.state(*t));
+                        if i % 2 == 0 {
+                            kept.push((e, oh));
+                        }
+                    }
+                    Err(m) => f.str(&m),
+                }
+            }
+            // everything kept alive must still print and evaluate as what it was made from
+            for (e, oh) in &kept {
+                let shown = match oh {
+                    AnyOh::N(x) => x.to_string(),
+                    AnyOh::Z(x, _) => x.to_string(),
+                };
+                if *kind == 0 && !shown.contains(e.split('"').nth(1).unwrap_or("")) {
+                    return format!("CHURN-MIXUP {e:?} prints as {shown:?}");
+                }
+                f.str(&shown);
+                f.str(&oh.next_change(*t));
+            }
+            format!("churn {:016x}", f.0)
+        }
         Op::Revisit { e, c, t1, t2 } => match build(e, c) {
             Ok(oh) => {
                 let sn = |t: i64| simcore::catch(|| format!("{} {}", oh.state(t), oh.next_change(t))).unwrap_or_else(|m| format!("PANIC: {m}"));
